@@ -19,9 +19,23 @@ MANIFEST = {
             "handler), deferred_retransmission_acked, reply_shape_any_history; tied by differential runs of 2-5 datagrams from up "
             "to 3 peers at one context with handlers that defer their response (coap_register_async). The handlers the resource "
             "constructors register by themselves are regenerated and proved to be the documented ones (constructor_presets_match_api); "
-            "the executable S escapes every byte RFC 3986 requires, whatever the implementation's table says (escape_restrict_id).",
-    "note": "Sequences: the delayed invocation of a deferred request (coap_check_async) and the separate response itself are not "
-            "modelled; earlier datagrams of a sequence only defer or answer directly. Partial: proxy forwarding itself (coap_proxy.c) is outside the model — the proxy resource's handler is treated as an "
+            "the executable S escapes every byte RFC 3986 requires, whatever the implementation's table says (escape_restrict_id). "
+            "Deferred responses (coap_async.c, Model/Async.lean: entry list, stored request copy, delay / trigger, session "
+            "references, idle-session reaper, coap_check_async from the I/O step): for every event sequence of request "
+            "datagrams, time steps, coap_async_trigger / _set_delay / coap_free_async — coap_check_async hands to the "
+            "application exactly the entries whose time has come, each once, with exactly the stored request, and removes them "
+            "(async_fires_exactly_the_due, async_fired_were_registered); its return value is not later than the earliest deadline "
+            "(async_wait_le_earliest_deadline); at most one entry per (session, token) (async_one_entry_per_session_token); a "
+            "retransmission of a deferred request registers nothing and gets an Empty ACK only "
+            "(async_retransmission_no_second_entry, async_retransmission_acked_only). Tied by differential runs (op asq) of the "
+            "real coap_register_async / coap_check_async / coap_async_trigger / coap_async_set_delay / coap_free_async on the "
+            "virtual clock against the model, event by event (transmissions, handler calls, the entry list with the stored "
+            "request, session reference counts, the reported wait), plus an oracle that reads the property off the "
+            "implementation's own report.",
+    "note": "Deferred responses: the session reference balance (one reference per entry, no entry of a freed session) is "
+            "checked on every run by the oracle and against the model but not yet proved for all sequences; a delayed invocation "
+            "whose handler sets no code (D13), requests with an Observe option and the proxy-URI resource are outside the "
+            "async machine's scope. Partial: proxy forwarding itself (coap_proxy.c) is outside the model — the proxy resource's handler is treated as an "
             "application handler (Empty ACK + separate CON response), coap_split_proxy_uri is an oracle; handler verdicts of 5.08, "
             "requests with a registered OSCORE option, libcoap-managed block transfer (block mode 0 only) and Empty/response codes "
             "are out of scope; the /.well-known/core listing is opaque (C20). Trusted: Lean kernel (+ propext, Classical.choice, "
@@ -954,7 +968,9 @@ REQUIRED_THEOREMS = ["decision_eq_spec", "at_most_one_reply", "reply_echoes_toke
                      "escape_tables_legal", "escape_restrict_id", "restricted_tables_legal", "constructor_presets_match_api",
                      "handlers_as_registered", "impl_table_eq", "decisionA_eq_specA", "nothing_found_is_fresh", "sequence_eq_spec",
                      "pending_of_others_irrelevant", "deferred_retransmission_acked", "history_changes_only_by_ack_again",
-                     "reply_shape_any_history"]
+                     "reply_shape_any_history", "async_fires_exactly_the_due", "async_fired_were_registered",
+                     "async_wait_le_earliest_deadline", "async_one_entry_per_session_token",
+                     "async_retransmission_no_second_entry", "async_retransmission_acked_only"]
 RULE = ("one line = one fresh server context + one request datagram: resource tables (0-4 ordinary resources from a pool of paths incl. "
         "'', '.well-known/core', percent-escaped and empty segments; per-method handler masks; observable; all multicast flag "
         "combinations; OSCORE-only; unknown-resource handler with/without HANDLE_WELLKNOWN_CORE; proxy resource with host name), "
@@ -968,6 +984,10 @@ RULE = ("one line = one fresh server context + one request datagram: resource ta
         "message ids from small per-line pools (same / other peer with the same token, prefix tokens, empty token), earlier "
         "datagrams mostly deferred by their handler (coap_register_async), proxied Confirmable duplicates; every datagram's "
         "transmissions (and their destination) and handler call compared; "
+        "+ n/5 `asq` lines = one server context, 3-11 events: request datagrams from up to 3 peers whose handler defers "
+        "(coap_register_async with delay 0/1/10/100/500/1000/2500 ticks) or answers, retransmissions (same bytes, fresh "
+        "message id, other peer), virtual time steps 0-5000 ticks, coap_async_trigger / coap_async_set_delay / "
+        "coap_free_async on the k-th entry, session idle timeout 1-3 s, Hop-Limit and No-Response options; "
         "non-trivial = distinct line on which the model prescribes a reply or a handler call")
 TRUSTED_BASE = ["Lean 4.33 kernel; axioms allowed: propext, Classical.choice, Quot.sound (audited per theorem each run)",
                 "T1 extractor extract/server.c (evaluation of coap_option_check_critical, coap_option_check_repeatable, "
@@ -977,7 +997,8 @@ TRUSTED_BASE = ["Lean 4.33 kernel; axioms allowed: propext, Classical.choice, Qu
                 "decoded with libcoap's own parser, C03), the generator and the comparison in props/C10.py",
                 "M (CoapVerif/Model/Server.lean) is a hand transcription of coap_dispatch (request path), handle_request, no_response, "
                 "coap_new_error_response, check_token_size, coap_option_check_critical, coap_get_uri_path/_query, the async lookup "
-                "(coap_find_async_lkd by session + token) and last_con_mid; checked against the compiled code only on the cases run"]
+                "(coap_find_async_lkd by session + token) and last_con_mid; Model/Async.lean of coap_async.c, coap_check_async, the "
+                "async branch of handle_request and the idle-session reaper; checked against the compiled code only on the cases run"]
 ASSUMPTIONS = ["UDP endpoint of a fresh context per line: no OSCORE context, block mode 0 (application handles blocks), Q-Block not "
                "enabled, no Echo pending; earlier datagrams at the context (op srvq) are requests whose handler defers indefinitely "
                "(coap_register_async delay 0, never triggered) or answers directly; observers, caches and retransmission of separate "
@@ -994,4 +1015,5 @@ SPEC_DECISIONS = ["D1 precedence of simultaneous error conditions", "D2 recognis
                   "D11 a request of the same peer with the token of a request whose response is deferred is a retransmission: "
                   "Empty ACK again if Confirmable, no handler; other peers / tokens unaffected",
                   "D12 deduplication only where libcoap does it: a duplicate (peer, message id) of a Confirmable request handed to "
-                  "the proxy handler is acknowledged again and not processed again"]
+                  "the proxy handler is acknowledged again and not processed again",
+                  "D13 a delayed invocation whose handler sets no response code is out of scope"]
